@@ -123,7 +123,7 @@ class ClientVisitor:
             desc = spec.description
             if desc is not None:
                 # Remove triple quotes, escape backslashes, and dedent
-                desc_clean = desc.replace('"""', "'").replace("'''", "'").replace("\\", "\\\\").replace("\x00", "").strip()
+                desc_clean = desc.replace("\x00", "").replace('"""', "'").replace("'''", "'").replace("\\", "\\\\").strip()
                 desc_clean = textwrap.dedent(desc_clean)
                 docstring_lines.append("")
                 docstring_lines.append(desc_clean)
